@@ -274,6 +274,7 @@ func c15(p *model.Prog, r *report.Result) {
 	w5SweepReached(p, r, "C15.R6")
 	w5PlayConnProps(p, r, "C15.R7")
 	w6AliveSnapshot(p, r, "C15.R8")
+	w9SubWriteTimeout(p, r, "C15.R9")
 }
 
 func loadOfGlobal(v ssa.Value) (*ssa.Global, bool) {
